@@ -25,6 +25,8 @@ import IgrisModel.C10.LemmasZones
 import IgrisModel.C10.LemmasIter
 import IgrisModel.C10.LemmasPtr
 import IgrisModel.C10.LemmasAddr
+import IgrisModel.C10.Lemmas3b
+import IgrisModel.C10.Lemmas3c
 namespace Igris.C10
 
 /-! ## Fixed-block pools (pool_head / igris::pool / static_object_pool)
@@ -1568,5 +1570,375 @@ theorem ipool_iterator_deref (e n : Nat) (he : 0 < e) (ops : List IOp) (s : ISta
   refine ⟨hmem, ?_⟩
   have hlt : i.toNat < n := by omega
   exact cell_in_zone hlt
+
+
+/-! ## Round 3b -/
+
+/-- EXACT characterisation of malloc's NULL answers, for EVERY heap state and request: NULL ⇔ a heap
+end is configured ∧ no chunk of the free list can hold the (rounded) request ∧ the break cannot be
+moved by the chunk (`rounded + 8` bytes) without passing the heap end.  (Totality: `malloc` is a
+total function of the model; `malloc_fail_changes_nothing` says what NULL leaves behind.) -/
+theorem malloc_null_iff (cfg : Cfg) (h : Heap) (n : Nat) :
+    (malloc cfg h n).ret = none ↔
+      cfg.lim ≠ 0 ∧ (∀ f ∈ h.flp, f.2 < minLen (roundLen cfg.W n)) ∧
+        cfg.lim < h.brk + minLen (roundLen cfg.W n) + 8 := by
+  have key := scan_none_iff (len := minLen (roundLen cfg.W n)) h.flp 0 0
+  unfold malloc
+  simp only
+  generalize minLen (roundLen cfg.W n) = len at *
+  split
+  · rename_i a hsc
+    have : ¬ ∃ x, scan len h.flp 0 0 = .inr (0, x) := by rintro ⟨x, hx⟩; rw [hsc] at hx; cases hx
+    rw [key] at this
+    constructor
+    · intro hc; cases hc
+    · rintro ⟨_, hall, _⟩; exact absurd ⟨rfl, hall⟩ this
+  · rename_i s sfp1 hsc
+    split
+    · rename_i hs0
+      have : ¬ ∃ x, scan len h.flp 0 0 = .inr (0, x) := by
+        rintro ⟨x, hx⟩; rw [hsc] at hx; simp only [Sum.inr.injEq, Prod.mk.injEq] at hx; omega
+      rw [key] at this
+      split
+      · constructor
+        · intro hc; cases hc
+        · rintro ⟨_, hall, _⟩; exact absurd ⟨rfl, hall⟩ this
+      · constructor
+        · intro hc; cases hc
+        · rintro ⟨_, hall, _⟩; exact absurd ⟨rfl, hall⟩ this
+    · rename_i hs0
+      have hs0' : s = 0 := by omega
+      subst hs0'
+      have hall := (key.1 ⟨sfp1, hsc⟩).2
+      have hav : availOf cfg.lim h.brk = (if cfg.lim ≤ h.brk then 0 else cfg.lim - h.brk) := rfl
+      generalize availOf cfg.lim h.brk = av at *
+      by_cases hc : cfg.lim ≠ 0 ∧ ¬ (av ≥ len ∧ av ≥ len + 8)
+      · rw [if_pos hc]
+        constructor
+        · intro _
+          refine ⟨hc.1, hall, ?_⟩
+          have := hc.2
+          split at hav <;> omega
+        · intro _; rfl
+      · rw [if_neg hc]
+        constructor
+        · intro h1; cases h1
+        · rintro ⟨h1, _, h3⟩
+          exfalso; apply hc
+          refine ⟨h1, ?_⟩
+          split at hav <;> omega
+
+
+example : (malloc ⟨64, 136⟩ ⟨72, [], [(0, 64)]⟩ 64).ret = none ∧ (malloc ⟨64, 136⟩ ⟨72, [], [(0, 64)]⟩ 63).ret = none ∧
+    (malloc ⟨64, 144⟩ ⟨72, [], [(0, 64)]⟩ 64).ret = some 80 := by decide
+
+/-- EXACT characterisation of realloc's NULL answers (round 3: only "in place" was an iff), for
+every reachable heap and every live block: NULL ⇔ the request is larger than the block ∧ a heap
+end is configured ∧ no free chunk can hold the request ∧ the chunk directly above is not a free
+chunk large enough for in-place growth ∧ the break cannot be moved far enough — by `len − sz` for
+the topmost chunk (in-place extension), by `len + 8` otherwise (the move path's `malloc`).
+Together with `realloc_in_place_iff`: every call is exactly one of in place / NULL / moved, and
+each region is described without the model's helper functions.  Totality:
+`heap_valid_requests_never_fault`. -/
+theorem realloc_null_iff (cfg : Cfg) (ok : CfgOK cfg) (h : Heap) (p n sz : Nat) (r : Res)
+    (hr : Reach cfg h) (hl : lookup (p - 8) h.live = some sz) (hs : realloc cfg h (some p) n = some r) :
+    r.ret = none ↔
+      sz < minLen (roundLen cfg.W n) ∧ cfg.lim ≠ 0 ∧
+      (∀ f ∈ h.flp, f.2 < minLen (roundLen cfg.W n)) ∧
+      (¬ ∃ f ∈ h.flp, f.1 = p + sz ∧ minLen (roundLen cfg.W n) - sz ≤ f.2 + 8) ∧
+      (if h.brk = p + sz then cfg.lim < p + minLen (roundLen cfg.W n)
+       else cfg.lim < h.brk + minLen (roundLen cfg.W n) + 8) := by
+  have hsz8 : 8 ≤ sz := ((hr.inv ok).wfL _ (lookup_mem hl)).1
+  have hmn := malloc_null_iff cfg h (minLen (roundLen cfg.W n))
+  have hid := reqLen_idem cfg ok n
+  unfold realloc reallocCore at hs
+  simp only at hs
+  generalize minLen (roundLen cfg.W n) = len at *
+  split at hs
+  · cases hs
+  · rw [hl] at hs
+    simp only at hs
+    split at hs
+    · rename_i hle
+      have hret : r.ret = some p := by
+        split at hs
+        · simp only [Option.some.injEq] at hs; subst hs; rfl
+        · split at hs
+          · cases hs
+          · simp only [Option.some.injEq] at hs; subst hs; rfl
+      constructor
+      · intro hc; rw [hret] at hc; cases hc
+      · rintro ⟨h1, _⟩; omega
+    · rename_i hgt
+      have hid' := hid (by omega)
+      rw [hid'] at hmn
+      split at hs
+      · rename_i fp3 hg
+        obtain ⟨hm3, ha3, hs3⟩ := growScan_inl hg
+        have hret : r.ret = some p := by
+          split at hs <;> (simp only [Option.some.injEq] at hs; subst hs; rfl)
+        constructor
+        · intro hc; rw [hret] at hc; cases hc
+        · rintro ⟨_, _, _, hno, _⟩; exact absurd ⟨fp3, hm3, ha3, by omega⟩ hno
+      · rename_i s hg
+        obtain ⟨hno, _, hmax, hwit⟩ := growScan_inr hg
+        have hnot2 : ¬ ∃ f ∈ h.flp, f.1 = p + sz ∧ len - sz ≤ f.2 + 8 := by
+          rintro ⟨f, hf, h1, h2⟩; exact hno f hf ⟨h1, by omega⟩
+        have hlens : (∀ f ∈ h.flp, f.2 < len) → len > s := by
+          intro hall
+          rcases hwit with hw | ⟨c, hc, hw⟩
+          · omega
+          · have := hall c hc; omega
+        split at hs
+        · rename_i htop
+          have hall : ∀ f ∈ h.flp, f.2 < len := fun f hf => by have := hmax f hf; omega
+          split at hs
+          · rename_i hlim
+            simp only [Option.some.injEq] at hs; subst hs
+            refine ⟨fun _ => ⟨by omega, hlim.1, hall, hnot2, ?_⟩, fun _ => rfl⟩
+            rw [if_pos htop.1]; omega
+          · rename_i hlim
+            simp only [Option.some.injEq] at hs; subst hs
+            constructor
+            · intro hc; cases hc
+            · rintro ⟨_, h0, _, _, hif⟩
+              rw [if_pos htop.1] at hif
+              exact absurd ⟨h0, by omega⟩ hlim
+        · rename_i hnt
+          split at hs
+          · rename_i hmnone
+            simp only [Option.some.injEq] at hs; subst hs
+            obtain ⟨h0, hall, hlt⟩ := hmn.1 hmnone
+            have hne : h.brk ≠ p + sz := fun hc => hnt ⟨hc, hlens hall⟩
+            refine ⟨fun _ => ⟨by omega, h0, hall, hnot2, ?_⟩, fun _ => rfl⟩
+            rw [if_neg hne]; exact hlt
+          · rename_i memp hm
+            have hret : r.ret ≠ none := by
+              split at hs
+              · cases hs
+              · simp only [Option.some.injEq] at hs; subst hs; simp
+            constructor
+            · intro hc; exact absurd hc hret
+            · rintro ⟨_, h0, hall, _, hif⟩
+              have hne : h.brk ≠ p + sz := fun hc => hnt ⟨hc, hlens hall⟩
+              rw [if_neg hne] at hif
+              have := hmn.2 ⟨h0, hall, hif⟩
+              rw [hm] at this; cases this
+
+
+example : ∃ r, realloc ⟨64, 200⟩ ⟨144, [], [(72, 64), (0, 64)]⟩ (some 80) 100 = some r ∧ r.ret = none := ⟨_, rfl, rfl⟩
+example : ∃ r, realloc ⟨64, 200⟩ ⟨144, [], [(72, 64), (0, 64)]⟩ (some 8) 100 = some r ∧ r.ret = none := ⟨_, rfl, rfl⟩
+
+/-- EXACT characterisation of the NULL answers of malloc WITH 64-bit sizes and addresses (what the
+driver runs, `mallocA`): NULL ⇔ the rounding of the request wraps, or no free chunk can hold the
+rounded request and the break cannot move: without a heap end because the new chunk would cross
+the top of the address space (`len > SIZE_MAX − 8 ∨ len + 8 > SIZE_MAX − (base + brk)`), with a
+heap end because `lim < brk + len + 8`. -/
+theorem mallocA_null_iff (base : Nat) (cfg : Cfg) (h : Heap) (n : Nat) :
+    (mallocA base cfg h n).ret = none ↔
+      (n % cfg.W ≠ 0 ∧ n > SIZE_MAX - (cfg.W - n % cfg.W)) ∨
+      ((∀ f ∈ h.flp, f.2 < minLen (roundLen cfg.W n)) ∧
+        (if cfg.lim = 0 then
+          minLen (roundLen cfg.W n) > SIZE_MAX - 8 ∨ minLen (roundLen cfg.W n) + 8 > SIZE_MAX - (base + h.brk)
+         else cfg.lim < h.brk + minLen (roundLen cfg.W n) + 8)) := by
+  have h3 := reachesStep3_iff cfg h n
+  have hm := malloc_null_iff cfg h n
+  unfold mallocA
+  split
+  · rename_i hw; exact ⟨fun _ => Or.inl hw, fun _ => rfl⟩
+  · rename_i hw
+    split
+    · rename_i href
+      refine ⟨fun _ => Or.inr ?_, fun _ => rfl⟩
+      unfold mallocRefusesA at href
+      simp only [Bool.and_eq_true, beq_iff_eq] at href
+      obtain ⟨⟨hl0, hst⟩, hbw⟩ := href
+      refine ⟨h3.1 hst, ?_⟩
+      rw [if_pos hl0]
+      unfold brkWraps at hbw
+      simpa using hbw
+    · rename_i href
+      rw [hm]
+      constructor
+      · rintro ⟨hl0, hall, hlt⟩
+        right
+        refine ⟨hall, ?_⟩
+        rw [if_neg hl0]; exact hlt
+      · rintro (hc | ⟨hall, hif⟩)
+        · exact absurd hc hw
+        · by_cases hl0 : cfg.lim = 0
+          · rw [if_pos hl0] at hif
+            exfalso; apply href
+            unfold mallocRefusesA brkWraps
+            simp only [Bool.and_eq_true, beq_iff_eq, Bool.or_eq_true, decide_eq_true_eq]
+            exact ⟨⟨hl0, h3.2 hall⟩, hif⟩
+          · rw [if_neg hl0] at hif
+            exact ⟨hl0, hall, hif⟩
+
+example : (mallocA (2 ^ 46) ⟨64, 0⟩ ⟨72, [], [(0, 64)]⟩ (2 ^ 64 - 64)).ret = none := by decide
+
+
+/-- EXACT characterisation of the NULL answers of realloc WITH 64-bit sizes and addresses
+(`reallocA`, what the driver runs), for every reachable heap, every live block, any `base`:
+NULL ⇔ the rounding of the request wraps, or `ptr + len` wraps (`cp < cp1`), or the request
+exceeds the block ∧ no free chunk can hold it ∧ the chunk directly above is not a sufficient
+free chunk ∧ the break cannot move: without a heap end only for a block that is NOT the topmost
+chunk, when the chunk `malloc` would append crosses the top of the address space; with a heap
+end when `lim < p + len` (topmost) resp. `lim < brk + len + 8`. -/
+theorem reallocA_null_iff (base : Nat) (cfg : Cfg) (ok : CfgOK cfg) (h : Heap) (p n sz : Nat) (r : Res)
+    (hr : Reach cfg h) (hl : lookup (p - 8) h.live = some sz) (hs : reallocA base cfg h (some p) n = some r) :
+    r.ret = none ↔
+      (n % cfg.W ≠ 0 ∧ n > SIZE_MAX - (cfg.W - n % cfg.W)) ∨
+      (base + p + minLen (roundLen cfg.W n)) % 2 ^ 64 < base + p - 8 ∨
+      (sz < minLen (roundLen cfg.W n) ∧ (∀ f ∈ h.flp, f.2 < minLen (roundLen cfg.W n)) ∧
+        (¬ ∃ f ∈ h.flp, f.1 = p + sz ∧ minLen (roundLen cfg.W n) - sz ≤ f.2 + 8) ∧
+        (if cfg.lim = 0 then
+          h.brk ≠ p + sz ∧ (minLen (roundLen cfg.W n) > SIZE_MAX - 8 ∨
+            minLen (roundLen cfg.W n) + 8 > SIZE_MAX - (base + h.brk))
+         else if h.brk = p + sz then cfg.lim < p + minLen (roundLen cfg.W n)
+         else cfg.lim < h.brk + minLen (roundLen cfg.W n) + 8)) := by
+  have hsz8 : 8 ≤ sz := ((hr.inv ok).wfL _ (lookup_mem hl)).1
+  obtain ⟨_, hlen8, _⟩ := reqLen_props cfg ok n
+  have hid := reqLen_idem cfg ok n
+  have h3 := reachesStep3_iff cfg h (minLen (roundLen cfg.W n))
+  unfold reallocA at hs
+  split at hs
+  · rename_i hw
+    simp only [Option.some.injEq] at hs; subst hs
+    exact ⟨fun _ => Or.inl hw, fun _ => rfl⟩
+  · rename_i hw
+    simp only at hs
+    split at hs
+    · rename_i hwt
+      simp only [Option.some.injEq] at hs; subst hs
+      refine ⟨fun _ => Or.inr (Or.inl ?_), fun _ => rfl⟩
+      unfold reallocWrapTest at hwt
+      simpa using hwt
+    · rename_i hwt
+      have hwt' : ¬ (base + p + minLen (roundLen cfg.W n)) % 2 ^ 64 < base + p - 8 := by
+        unfold reallocWrapTest at hwt; simpa using hwt
+      split at hs
+      · rename_i href
+        simp only [Option.some.injEq] at hs; subst hs
+        refine ⟨fun _ => Or.inr (Or.inr ?_), fun _ => rfl⟩
+        simp only [Bool.and_eq_true] at href
+        obtain ⟨hmv, hrf⟩ := href
+        unfold mallocRefusesA at hrf
+        simp only [Bool.and_eq_true, beq_iff_eq] at hrf
+        obtain ⟨⟨hl0, hst⟩, hbw⟩ := hrf
+        have hall := h3.1 hst
+        by_cases hbig : 8 < minLen (roundLen cfg.W n)
+        · rw [hid hbig] at hall hbw
+          obtain ⟨h1, h2, h3'⟩ := (reachesMove_iff cfg h p _ sz hl hall).1 hmv
+          refine ⟨h1, hall, h2, ?_⟩
+          rw [if_pos hl0]
+          refine ⟨h3', ?_⟩
+          unfold brkWraps at hbw; simpa using hbw
+        · -- len = 8 ≤ sz: the request is no growth, `reachesMove` is false
+          exfalso
+          have hle : minLen (roundLen cfg.W n) ≤ sz := by omega
+          unfold reachesMove at hmv
+          rw [hl] at hmv
+          simp [hle] at hmv
+      · rename_i href
+        have hrn := realloc_null_iff cfg ok h p n sz r hr hl hs
+        rw [hrn]
+        constructor
+        · rintro ⟨h1, hl0, hall, hno, hif⟩
+          right; right
+          refine ⟨h1, hall, hno, ?_⟩
+          rw [if_neg hl0]; exact hif
+        · rintro (hc | hc | ⟨h1, hall, hno, hif⟩)
+          · exact absurd hc hw
+          · exact absurd hc hwt'
+          · by_cases hl0 : cfg.lim = 0
+            · rw [if_pos hl0] at hif
+              exfalso; apply href
+              have hbig : 8 < minLen (roundLen cfg.W n) := by omega
+              simp only [Bool.and_eq_true]
+              refine ⟨(reachesMove_iff cfg h p _ sz hl hall).2 ⟨h1, hno, hif.1⟩, ?_⟩
+              unfold mallocRefusesA brkWraps
+              simp only [Bool.and_eq_true, beq_iff_eq, Bool.or_eq_true, decide_eq_true_eq]
+              rw [hid hbig]
+              refine ⟨⟨hl0, ?_⟩, hif.2⟩
+              apply h3.2
+              rw [hid hbig]; exact hall
+            · rw [if_neg hl0] at hif
+              exact ⟨h1, hl0, hall, hno, hif⟩
+
+
+example : ∃ r, reallocA (2 ^ 46) ⟨64, 0⟩ ⟨144, [], [(72, 64), (0, 64)]⟩ (some 8) (2 ^ 64 - 2 ^ 46 - 64) = some r ∧ r.ret = none :=
+  ⟨_, rfl, by decide⟩
+
+/-- WHAT THE DRIVER PRINTS after a successful `realloc` of a block that the harness had filled
+with the pattern `seed` over its `oldn ≤ sz` requested bytes: the digest of the first
+`min(oldn, n)` bytes of the RETURNED block, computed by executing the model's stores (`execJ`:
+the `memcpy` of the move path, the header writes with arbitrary bytes) on the old block's
+bytes, IS the digest of the pattern itself — for every junk, every memory content outside the
+block, all six paths.  The harness prints the digest of the real bytes: a difference is a lost
+prefix, shown with the model's own bytes. -/
+theorem realloc_digest_is_pattern (cfg : Cfg) (ok : CfgOK cfg) (h : Heap) (p n sz q : Nat) (r : Res)
+    (hr : Reach cfg h) (hl : lookup (p - 8) h.live = some sz)
+    (hs : realloc cfg h (some p) n = some r) (hq : r.ret = some q) (junk : Nat → Nat)
+    (oldn seed other : Nat) (hold : oldn ≤ sz) :
+    prefixDigest (execJ junk (patMem p oldn seed other) r.evs) q (min oldn n) =
+      prefixDigest (fun i => pat seed i) 0 (min oldn n) := by
+  unfold prefixDigest
+  apply digestFrom_congr
+  intro j _ hj
+  have := realloc_bytes_preserved cfg ok h p n sz q r hr hl hs hq junk (patMem p oldn seed other) j (by omega)
+  rw [this]
+  unfold patMem
+  have h1 : p ≤ p + j ∧ p + j < p + oldn := by omega
+  rw [if_pos h1]
+  simp
+
+example : prefixDigest (fun i => pat 1 i) 0 3 = ((pat 1 0 * 31 + pat 1 1) * 31 + pat 1 2) % 2 ^ 32 := by decide
+
+/-- `heap_addr_history` is EXACT in `W`: for `__WORDSIZE = 8` (a power of two and a multiple
+of 8, but below 16 — not a configuration the port ships: `<bits/wordsize.h>` gives 32 or 64)
+the statement fails.  `malloc(8); realloc(p, 2⁶⁴ − 8)`: the request needs no rounding, realloc's
+wrap test computes `cp = ptr + len = ptr − 8 = cp1` (mod 2⁶⁴), `cp < cp1` is false, the chunk
+is the topmost one, and the break is set to `cp`: in the offset model `brk = 2⁶⁴`, i.e. the
+break ADDRESS wraps (in the code it lands on the chunk's own header).  With `16 ≤ W` a rounded
+request is at most `2⁶⁴ − 16` and the test is exact (`heap_addr_wrap_test_exact`). -/
+theorem heap_addr_history_w8_witness :
+    (8 : Nat) ∣ 2 ^ 64 ∧ (∀ op ∈ [Op.malloc 8, Op.realloc (some 8) (2 ^ 64 - 8)], op.sizeOK) ∧
+    ∃ h, runA (2 ^ 46) ⟨8, 0⟩ Heap.init [.malloc 8, .realloc (some 8) (2 ^ 64 - 8)] = some h ∧
+      ¬ (2 ^ 46 + h.brk ≤ SIZE_MAX) ∧ reallocWrapTest (2 ^ 46) 8 (2 ^ 64 - 8) = false := by
+  refine ⟨⟨2 ^ 61, by decide⟩, ?_, _, rfl, by decide, by decide⟩
+  intro op hop
+  simp only [List.mem_cons, List.not_mem_nil, or_false] at hop
+  rcases hop with rfl | rfl <;> simp [Op.sizeOK, SIZE_MAX]
+
+
+/-! ### static_object_pool: a `T` constructor that throws (round 3b) -/
+
+/-- `create(args…)` whose constructor throws leaves the pool EXACTLY as it was — same free list
+(the cell is pushed back where it was popped), same objects, no fault — for every state; the
+exception reaches the caller iff a cell was free (otherwise `nullptr` before any constructor
+runs).  Hence every theorem about create/destroy histories (`sop_lifetimes`, `sopx_lifetimes`,
+`sop_null_iff_exhausted`, …: `avail = Capacity − live`) holds unchanged for histories with throwing
+constructors interleaved at arbitrary points. -/
+theorem sop_create_throw_keeps_pool (p : SOP) :
+    p.createThrow.2 = p ∧ (p.createThrow.1 = true ↔ p.head.free ≠ []) := by
+  obtain ⟨⟨fr⟩, objs, flt⟩ := p
+  cases fr with
+  | nil => simp [SOP.createThrow, Pool.alloc]
+  | cons c rest => simp [SOP.createThrow, Pool.alloc, Pool.release]
+
+/-- FULL STATEMENT ("free count = capacity − live") violated by the routine as it was (before
+`fix: static_object_pool::create returns the cell when the constructor throws`): one throwing
+constructor on a fresh pool of 2 cells: no object lives, `avail() = 1 ≠ 2 − 0`; the cell is
+never handed out again (after two more creates the pool answers null with ONE object short of
+its capacity). -/
+theorem sop_create_throw_orig_witness :
+    let p0 := SOP.init 8 8 2
+    let p1 := p0.createThrowOrig.2
+    p0.createThrowOrig.1 = true ∧ p1.objs = [] ∧ p1.avail = 1 ∧
+    ((p1.create.2).create.2).create.1 = none ∧ ((p1.create.2).create.2).objs.length = 1 ∧
+    (p0.createThrow.2).avail = 2 := by decide
+
+example : (SOP.init 8 8 2).createThrow.1 = true := by decide
 
 end Igris.C10
